@@ -384,7 +384,9 @@ def cmp_atom(op, l, r):
 
 
 def negate_cmp(a):
-    """logical negation of a cmp atom"""
+    """logical negation of a cmp atom (a conjunction has no negation in this vocabulary: returned as ('not', a))"""
+    if a[0] != 'cmp':
+        return a[1] if a[0] == 'not' else ('not', a)
     _, op, d = a
     if op == '<':      # d < 0  ->  d >= 0  ->  -d <= 0
         return ('cmp', '<=', -d)
@@ -479,6 +481,13 @@ def lin(tu, e, env=None):
             return Lin.atom(cmp_atom(op, lin(tu, ks[0], env), lin(tu, ks[1], env)))
         if op == ',':
             return lin(tu, ks[1], env)
+        if op == '&&':
+            a, b = bool_atom(tu, ks[0], env), bool_atom(tu, ks[1], env)
+            if a is not None and b is not None:
+                parts = set()
+                for x in (a, b):
+                    parts |= set(x[1]) if x[0] == 'and' else {x}
+                return Lin.atom(('and', frozenset(parts)))
         return Lin.atom(('opaque', tu.show(n)))
     if k == 'ConditionalOperator':
         c = bool_atom(tu, ks[0], env)
@@ -505,6 +514,8 @@ def lin(tu, e, env=None):
 
 def ite_atom(c, a, b):
     """canonical if-then-else: min/max are recognised, the condition is kept un-negated in one orientation"""
+    if c[0] != 'cmp':
+        return ('ite', c, a, b)
     _, op, d = c
     # (x < y ? x : y) == min(x,y);  c is d rel 0 with d = x - y
     if op in ('<', '<='):
@@ -532,6 +543,17 @@ def bool_atom(tu, e, env=None):
     if k == 'UnaryOperator' and n.get('opcode') == '!':
         a = bool_atom(tu, ks[0], env)
         return None if a is None else negate_cmp(a)
+    if k == 'BinaryOperator' and n.get('opcode') == '&&':
+        v = lin(tu, n, env)
+        a = v.single_atom()
+        return a if a is not None and a[0] == 'and' else None
+    if k in ('DeclRefExpr', 'MemberExpr') and clean_type(tu.sd(n).get('ct')) == 'bool':
+        # a Boolean variable whose value is known as a comparison (or a conjunction of comparisons)
+        v = lin(tu, n, env)
+        a = v.single_atom()
+        if a is not None and a[0] in ('cmp', 'and'):
+            return a
+        return None
     if k in ('DeclRefExpr', 'MemberExpr', 'BinaryOperator', 'CallExpr', 'CXXMemberCallExpr'):
         if irange(tu.sd(n).get('ct')) is not None and clean_type(tu.sd(n).get('ct')) != 'bool':
             return cmp_atom('!=', lin(tu, n, env), Lin.const(0))
